@@ -63,7 +63,7 @@ PROPS = {
     "C01": {
         "rules": [BR.r_bracket, BR.r_reader_writer, BR.r_fanout, BR.r_columns, FW.r_forward,
                   todo({"push", "index"}, ("Region", "Push")), X.r_iter_readitems,
-                  A.r_freeze, A.r_foreign_writers, A.r_reject_stored, I.r_concat, CD.r_tags, CD.r_bitmap, CD.r_literal_guard],
+                  A.r_freeze, A.r_foreign_writers, A.r_reject_stored, I.r_concat, CD.r_tags, CD.r_bitmap, CD.r_literal_guard, O.r_zip_byref, FW.r_skip_take],
         "explanation": "Static analysis of the un-instantiated MIR of every Push/Region impl: decides the structural necessary conditions of the round trip for all instantiations and paths, not the value equality itself.",
         "decided": [
             "R-BRACKET: every non-forwarding push of a (start,end)/position-indexed storage returns (len before its appends, len after) resp. len-1-seed, with exactly the appends on that storage in between",
@@ -74,7 +74,7 @@ PROPS = {
             "R-ITER: read-item iterators yield start..end / zip(index, columns) in order",
             "R-TODO: no push/index body is unconditionally diverging",
             "index containers a region can be parameterised with keep push order (R-GUARD/R-CONCAT); the dictionary codec's reader and writer tables agree (R-TAGS/R-BITMAP/R-GUARD)",
-        ],
+            "R-ZIP / skip-take: read-back and copy paths (clone_onto helpers, region-to-region push) neither drop an element to a by_ref zip nor use the end of a (start, end) pair as a take() count"],
         "not_decided": ["element-for-element equality of values, NaN/ZST/extreme values, panics inside std", "lossy integer narrowing of values that the writer and the reader side both derive from one source (seeded change C01_d2: Huffman encode table narrowed to u32 codes; whether a value fits is value-level)", COMMON_ND],
     },
     "C02": {
@@ -87,7 +87,7 @@ PROPS = {
             "R-GUARD: IndexList writes smol only while chonk is empty; IndexOptimized writes strided only while nothing spilled",
             "CollapseSequence's collapse path performs no write",
         ],
-        "not_decided": ["that Stride's in-place state transition preserves earlier elements (value-level; C05)", "bit arithmetic of the Huffman cursor", COMMON_ND],
+        "not_decided": ["that Stride's in-place state transition preserves earlier elements (value-level; C05; seeded change C02_f1, a merged Striding/Saturated variant that resumes striding after saturation, is not detected)", "bit arithmetic of the Huffman cursor", COMMON_ND],
     },
     "C03": {
         "rules": [FS.r_pairing, FS.r_delegation, only(L.r_reset, {"FlatStack"}), only(L.r_clone, FS_ONLY | INDEX_ONLY),
@@ -105,7 +105,7 @@ PROPS = {
     },
     "C04": {
         "rules": [S.r_unsafe, S.r_strwrite, only(BR.r_bracket, {"OwnedRegion", "ConsecutiveIndexPairs"}),
-                  BR.r_reader_writer, CD.r_tags, CD.r_bitmap, CD.r_literal_guard, L.r_clone, A.r_freeze, A.r_foreign_writers, L.r_reserve_only],
+                  BR.r_reader_writer, CD.r_tags, CD.r_bitmap, CD.r_literal_guard, L.r_clone, A.r_freeze, A.r_foreign_writers, L.r_reserve_only, L.r_reset],
         "thorough": [X.witness("C04")],
         "explanation": "Program-text property: inventory of unchecked str constructions and of everything that can write StringRegion's byte region, over the type-checked crate.",
         "decided": [
@@ -114,12 +114,13 @@ PROPS = {
             "compile-fail witnesses: pushing byte types into a StringRegion does not type-check",
             "byte offsets are push boundaries: R-BRACKET for OwnedRegion and ConsecutiveIndexPairs, R-READER for every bracket-indexed index(); dictionary reader/writer tables agree (R-TAGS/R-BITMAP/R-GUARD), so a decoded entry is a whole pushed string",
             "R-CLONE: hand-written clone/clone_from of every region and offset container copy every field on every path (a copy with stale offsets would cut a string in the middle of a character)",
-            "R-GUARD / R-RESERVE-ONLY: the offset containers behind ConsecutiveIndexPairs keep push order (a re-ordered offset cuts a string inside a character), and reserve paths never replace a codec or storage that already holds strings"],
-        "not_decided": ["that the inner byte region returns exactly the pushed byte range (C01/C02 clauses)", "deserialising foreign data"],
+            "R-GUARD / R-RESERVE-ONLY: the offset containers behind ConsecutiveIndexPairs keep push order (a re-ordered offset cuts a string inside a character), and reserve paths never replace a codec or storage that already holds strings",
+            "R-RESET: clear() resets every field of the codec behind a string region (a dictionary whose writer table survives clear stores tag bytes the empty reader table returns verbatim)"],
+        "not_decided": ["that the inner byte region returns exactly the pushed byte range (C01/C02 clauses)", "deserialising foreign data", "capacity limits inside the dictionary's tables (seeded change C04_f2: 16-bit offsets in BytesMap silently drop entries the writer table still uses)"],
     },
     "C05": {
         "rules": [I.r_ovf, I.r_panic_edges, I.r_nowrite_on_reject, A.r_freeze, A.r_foreign_writers, A.r_reject_stored, I.r_concat, I.r_stride_iter,
-                  B.r_bound_stride_sites, B.r_index_failstop, only(L.r_reset, {"Stride", "IndexList", "IndexOptimized"})],
+                  B.r_bound_stride_sites, B.r_index_failstop, only(L.r_reset, {"Stride", "IndexList", "IndexOptimized"}), only(L.r_clone, INDEX_ONLY)],
         "explanation": "Overflow-checked arithmetic is visible in MIR as Assert(Overflow) terminators; taint from pushed values is propagated through the Stride state; the representation order of the two-level containers is checked for agreement between push, index, len, is_empty, iter and clear.",
         "decided": [
             "R-OVF: no overflow-checked arithmetic on a pushed value in the write path (build-profile independence, no panic), except stride*(count-1) = last accepted element",
@@ -127,12 +128,12 @@ PROPS = {
             "R-NOWRITE-ON-REJECT: Stride::push writes nothing on a path that returns false",
             "R-GUARD / R-CONCAT / R-ITER: first/second order agreement of IndexList and IndexOptimized across push, index, len, is_empty, iter, next, clear",
             "R-BOUND: every Stride::index call site is strictly guarded by Stride::len",
-        ],
-        "not_decided": ["that the accepted progression is exactly 0, s, 2s, ... then repeats (value-level)", COMMON_ND],
+            "R-CLONE for the index containers: a hand-written clone/clone_from copies every field on every path"],
+        "not_decided": ["that the accepted progression is exactly 0, s, 2s, ... then repeats (value-level)", "iterator specialisations that consume the first part themselves before the second (reported as undecided; seeded change C05_f2 trusts a size_hint lower bound as exact)", COMMON_ND],
     },
     "C06": {
         "rules": [HF.r_refusal, HF.r_code_source, HF.r_stats_and_arms, only(BR.r_bracket, HUFF_ONLY), c06_peel,
-                  only(L.r_reset, HUFF_ONLY), FW.r_forward, HF.r_shift, HF.r_descent, HF.r_tail],
+                  only(L.r_reset, HUFF_ONLY), FW.r_forward, HF.r_shift, HF.r_descent, HF.r_tail, HF.r_chunk, only(L.r_clone, HUFF_ONLY)],
         "explanation": "Only the structural clauses of the Huffman contract are decided; exact decoding, optimality and alphabet-size behaviour are numeric and stay undecided.",
         "decided": [
             "R-REFUSE: a symbol without a code reaches only a panicking unwrap, never a substitute code",
@@ -142,9 +143,10 @@ PROPS = {
             "R-RESET: default() and clear() fall back to raw storage with empty stats",
             "R-SHIFT: interval analysis of every overflow-checked shift whose amount is local scalar arithmetic (%, const-, min): the amount stays below the operand width",
             "R-DESCENT: in Decoder::next (helpers inlined) every table lookup that can run after a descent into a nested table indexes the descended table variable, never the root table alone",
+            "R-CHUNK: every advance of BitIterator's cursor is bounded by the bits that remain in the item (min(.., end - cursor), exactly end - cursor, or a dominating comparison that implies it)",
             "R-TAIL: every panic of Decoder::next is dominated by a still-valid test that undecoded bits remain (an item whose input is used up ends the iteration in every arm of the end-of-input match; found the >= 512-symbol / empty-alphabet decode panic, fixed in /repo)",
-        ],
-        "not_decided": ["exact decode at every bit alignment (bit arithmetic of BitIterator / Encoder / Decoder: seeded change C06_e1, a BitIterator that over-reads an item lying strictly inside one byte, is not detected), code optimality, >= 1 bit per symbol (the single-symbol alphabet hangs/panics: observed, not decidable here)", COMMON_ND],
+            "R-CLONE for HuffmanContainer: clone_from copies the code, the bytes and the bit cursor (component by component where it takes the encoded state apart)"],
+        "not_decided": ["exact decode at every bit alignment (bit arithmetic of Encoder / Decoder and the shift/mask of BitIterator; only the cursor bound of BitIterator is decided, R-CHUNK), code optimality, >= 1 bit per symbol (the single-symbol alphabet hangs/panics: observed, not decidable here)", COMMON_ND],
     },
     "C07": {
         "rules": [CD.r_literal_guard, CD.r_emptiness, CD.r_tags, CD.r_bitmap, CD.r_stats,
@@ -193,29 +195,32 @@ PROPS = {
     "C12": {
         "rules": [only(BR.r_bracket, DENSE_ONLY), only(L.r_seed, DENSE_ONLY), only(L.r_reset, DENSE_ONLY),
                   BR.r_reader_writer, BR.r_columns, only(A.r_append, DENSE_ONLY), only(L.r_fresh, DENSE_ONLY),
-                  BR.r_bracket, A.r_freeze, A.r_foreign_writers, A.r_reject_stored, I.r_concat, only(L.r_clone, DENSE_ONLY)],
+                  BR.r_bracket, A.r_freeze, A.r_foreign_writers, A.r_reject_stored, I.r_concat, only(L.r_clone, DENSE_ONLY), O.r_onto],
         "explanation": "Dense indices follow from one append of the end offset per push, the seeded leading 0 and index(k) = (offsets[k], offsets[k+1]).",
         "decided": ["R-BRACKET with seed 1 for ConsecutiveIndexPairs", "R-SEED: exactly one leading 0 in default/merge_regions/clear", "R-READER: index(k) reads offsets k and k+1 in order",
                     "R-COLUMNS: ColumnsRegion returns the inner dense index unchanged, creates missing columns first, rows carry exactly their own index slice",
                     "R-APPEND/R-FRESH for the two types: no write or reserve path drops columns or offsets",
-            "R-CLONE for the dense-index regions: a copy made by clone/clone_from carries every column and every offset (creation by copying counts as creation)"],
+            "R-CLONE for the dense-index regions: a copy made by clone/clone_from carries every column and every offset (creation by copying counts as creation)",
+            "R-ONTO for the row read item: clone_onto forces the target to the row's own length"],
         "not_decided": ["that the inner region's ranges are contiguous (its own R-BRACKET instance)"],
     },
     "C13": {
         "rules": [B.r_bound_readitems, B.r_index_failstop, B.r_bound_stride_sites, X.r_iter_readitems,
-                  X.r_iter_positions, A.r_freeze, A.r_foreign_writers, X.r_exact_size],
+                  X.r_iter_positions, A.r_freeze, A.r_foreign_writers, X.r_exact_size, I.r_concat, I.r_stride_iter],
         "explanation": "Every positional access into shared storage must be dominated by a strict bound of the position against the item's own extent (the linear form len() returns).",
         "decided": ["R-BOUND for ReadSlice/ReadSliceInner/ReadColumns/ReadColumnsInner/FlatStack get", "len/is_empty agreement", "R-ITER: iteration covers start..end; every iterator method (next and specialisations) takes its positions from the underlying range iterator",
             "R-GUARD: the two-level offset containers that positional reads go through keep push order (the first level is written only while the second is empty), so position i of an item is never another item's element",
-            "R-ITER (exact size): every local ExactSizeIterator impl is backed by a size_hint (or len) override taken from the underlying iterator; without one the provided len() panics on every call (found ReadSliceIter / ReadSliceIterInner, fixed in /repo eda620f)"],
+            "R-ITER (exact size): every local ExactSizeIterator impl is backed by a size_hint (or len) override taken from the underlying iterator; without one the provided len() panics on every call (found ReadSliceIter / ReadSliceIterInner, fixed in /repo eda620f)",
+            "R-CONCAT / R-ITER: len, is_empty and iteration of the index containers behind FlatStack::get agree with index() (is_empty looks at both levels; StrideIter yields strided.index(cursor))"],
         "not_decided": [COMMON_ND],
     },
     "C14": {
         "rules": [O.r_onto, O.r_onto_nopanic, O.r_zip_byref, O.r_owned_conversions, O.r_reborrow, FW.r_forward, FW.r_sibling,
-                  HF.r_stats_and_arms, BR.r_bracket],
+                  HF.r_stats_and_arms, BR.r_bracket, CMP.r_cmp, FW.r_skip_take],
         "explanation": "clone_onto must overwrite its target on every path (and force its length), reborrow is the identity, borrow_as/into_owned are built from the whole value.",
         "decided": ["R-ONTO (every path overwrites the target and forces its length; no access bounded by the target's previous length)", "R-WHOLE", "R-REBORROW",
-                    "region-to-region push: Push<ReadItem> impls forward / agree with their canonical siblings (R-FORWARD, R-SIBLING, R-BRACKET, R-HUFF-ARMS)"],
+                    "region-to-region push: Push<ReadItem> impls forward / agree with their canonical siblings (R-FORWARD, R-SIBLING, R-BRACKET, R-HUFF-ARMS)",
+            "R-CMP: the equality through which a copy is compared with its source decodes both sides (no representation-dependent early exit); skip-take as under C01"],
         "not_decided": ["equality of the results"],
     },
     "C15": {
@@ -237,16 +242,18 @@ PROPS = {
         "assumptions": ["only meaningful in the serde feature configuration"],
     },
     "C17": {
-        "rules": [AL.r_cover_merge, AL.r_cover_reserve, AL.r_cover_reserve_vec, AL.r_reserve_items_agree, AL.r_reserve_exact_count, AL.r_noalloc, AL.r_reserve_no_truncation, AL.r_reserve_hint_lower],
+        "rules": [AL.r_cover_merge, AL.r_cover_reserve, AL.r_cover_reserve_vec, AL.r_reserve_items_agree, AL.r_reserve_exact_count, AL.r_noalloc, AL.r_reserve_no_truncation, AL.r_reserve_hint_lower, AL.r_reserve_additional],
         "explanation": "Pre-sizing must cover every storage field from the same-named field of the sources; push paths of non-coded regions build no temporaries and never exact-fit.",
-        "decided": ["R-COVER(merge_regions)", "R-COVER(reserve_regions)", "R-RESERVE-ITEMS", "R-NOALLOC / R-AMORTISED"],
+        "decided": ["R-COVER(merge_regions)", "R-COVER(reserve_regions)", "R-RESERVE-ITEMS", "R-NOALLOC / R-AMORTISED",
+            "R-RESERVE-ITEMS (additional): no reserve amount contains the receiver's own length"],
         "not_decided": ["the amounts themselves, allocator call counts, the O(log n) bound"],
     },
     "C18": {
-        "rules": [L.r_cover_heap, L.r_retain, L.r_retain_noshrink, todo({"heap_size"}), L.r_reset],
+        "rules": [L.r_cover_heap, L.r_retain, L.r_retain_noshrink, todo({"heap_size"}), L.r_reset, L.r_reserve_only],
         "explanation": "heap_size must forward the caller's callback to every storage field and report (len-derived, capacity-derived) in that order.",
         "decided": ["R-COVER(heap_size)", "R-RETAIN: clear() never replaces a storage whose capacity is reported", "R-TODO",
-            "R-RESET: clear() resets every storage field on every path (an early return that skips the reset keeps pushed payload accounted after clear)"],
+            "R-RESET: clear() resets every storage field on every path (an early return that skips the reset keeps pushed payload accounted after clear)",
+            "R-RESERVE-ONLY: reserve paths never shrink or replace a storage (a spine shrunk by resize_with drops payload and capacity from the report without a clear)"],
         "not_decided": ["the byte lower bound against a reference model"],
     },
     "C19": {
@@ -259,7 +266,7 @@ PROPS = {
         "not_decided": ["that Stride::push accepts every strided/saturated sequence (value-level; seeded change C19_e1, which rejects the repeated last element when the next step would overflow, is reported by C05's R-OVF only)"],
     },
     "C20": {
-        "rules": [FW.r_forward, FW.r_sibling, FW.r_pushstorage, A.r_freeze, A.r_foreign_writers, A.r_reject_stored],
+        "rules": [FW.r_forward, FW.r_sibling, FW.r_pushstorage, A.r_freeze, A.r_foreign_writers, A.r_reject_stored, FW.r_skip_take, HF.r_stats_and_arms, BR.r_columns],
         "explanation": "Forwarding impls pass the same value on through representation-preserving conversions; canonical impls of one region have the same effect signature; the bulk path of the offset containers (IndexContainer::extend, used by the slice/Vec/array forms) obeys the same representation-switch guards as the element-wise push (used by the read-item form).",
         "decided": ["R-FORWARD", "R-SIBLING", "PushStorage forms are all append-class",
                     "R-GUARD: bulk and element-wise writes of the two-level offset containers append to the first level only while the second is empty (a guard hoisted out of a loop that spills goes stale and is not accepted), and a value the stride rejects is stored in the spill list"],
